@@ -2,13 +2,51 @@
 """C15 — concurrent registrations: theorems over the interleaving model (coq/Props/C15.v); forced
 interleavings of real ptt.SetupNewUser / ptt.NewRegister calls (goroutines in 1..3 worker processes
 sharing one shared-memory segment, passwd semaphore and .PASSWDS) validated as traces of the model;
-direct predicates on results, SHM index and .PASSWDS decide violations."""
+direct predicates on results, SHM index, .PASSWDS and the value of the passwd semaphore (read by the
+driver after every controller step and at the end of every phase) decide violations. Scenarios are
+histories: one or more phases on the same shared memory / semaphore / worker processes (e.g. a same-id
+race whose loser is refused inside the lock, then 2-3 interleaved registrations)."""
 import concurrent.futures, json, os, sys
 sys.path.insert(0, os.path.join(os.path.dirname(os.path.abspath(__file__)), "..", "lib"))
 import vf
 
 MODEL_RECHECKS = 1      # 1 when Model/C15.v code_rechecks = true (one more step inside the critical section)
 WITNESS = [0, 1, 0, 0, 0, 1, 1, 1]      # A.Check, B.Check, A.Lock .. A.Unlock, B.Lock .. B.Unlock
+OBS = 1000000                           # Model/C15.v OBS: "the semaphore value was read here"
+
+
+class Case:
+    """a history: phases [(procs, ids, schedule)] run one after the other on one table / semaphore / set of workers.
+    op 1 (the original wire format) = the scheduled threads + one late registration; op 3 = any phases."""
+    def __init__(self, mode, tab, phases, op=3):
+        self.op, self.mode, self.tab = op, mode, list(tab)
+        self.phases = [(list(p), list(i), list(s)) for p, i, s in phases]
+        self.procs = [p for ph in self.phases for p in ph[0]]
+        self.ids = [i for ph in self.phases for i in ph[1]]
+
+    def line(self):
+        nums = lambda l: " ".join(map(str, l))
+        if self.op == 1:
+            (procs, ids, sched), (_, late, _) = self.phases
+            return "1|%d|%s|%s|%s|%s" % (self.mode, nums(procs), enc(ids + late), enc(self.tab), nums(sched))
+        return "3|%d|%s|" % (self.mode, enc(self.tab)) + "|".join("%s|%s|%s" % (nums(p), enc(i), nums(s)) for p, i, s in self.phases)
+
+    def describe(self):
+        return "; then ".join("procs=%s ids=%s schedule=%s" % (p, [x.decode("latin-1") for x in i], s) for p, i, s in self.phases)
+
+    @staticmethod
+    def from_line(line):
+        g = [x.split() for x in line.split("|")]
+        ints = lambda l: [int(x) for x in l]
+        if g[0] == ["1"]:
+            procs, ids = ints(g[2]), dec(g[3])
+            return Case(int(g[1][0]), dec(g[4]), [(procs, ids[:len(procs)], ints(g[5])), ([0], ids[len(procs):], [])], op=1)
+        return Case(int(g[1][0]), dec(g[2]), [(ints(g[i]), dec(g[i + 1]), ints(g[i + 2])) for i in range(3, len(g), 3)])
+
+
+def single(mode, procs, ids, tab, sched):
+    """the original case shape: threads ids[:-1] under the schedule, then a late registration of ids[-1] in process 0"""
+    return Case(mode, tab, [(procs, ids[:-1], sched), ([0], ids[-1:], [])], op=1)
 
 
 def enc(ids):
@@ -83,7 +121,35 @@ def model_schedule(ev):
                 sch += [t] * (R + 1) + [t]                  # no free slot; unlock
             elif v == 104:
                 sch += [-(t + 1)]                           # semop returned EINTR while waiting
+        elif code == 11:
+            sch += [OBS]                                    # the driver read the semaphore value here
     return sch
+
+
+def sem_predicates(ev, who):
+    """the passwd semaphore, from the driver's own readings (trace code 11) and the observed schedule points:
+    never above 1; 0 exactly while a call is between reg.locked and its return; 1 when no call is inside — in
+    particular at the end of every phase, after refusals inside the lock; and never two calls inside at once."""
+    bad, inside, nread = [], [], 0
+    for t, code, v in ev:
+        if code in (2, 3):
+            if t not in inside:
+                inside.append(t)
+            if len(inside) > 1:
+                bad.append(("reg-lock-not-exclusive", "threads %s are inside the critical section (between PasswdLock and PasswdUnlock) at the same time: %s" % (inside, who)))
+        elif code in (4, 5):
+            if t in inside:
+                inside.remove(t)
+        elif code == 11:
+            nread += 1
+            if v > 1:
+                bad.append(("reg-sem-above-1", "the passwd semaphore has value %d (reading #%d; calls inside the lock: %s): it was posted more often than taken and no longer excludes anybody: %s" % (v, nread, inside, who)))
+            elif v != (0 if inside else 1):
+                bad.append(("reg-sem-value", "the passwd semaphore has value %d at reading #%d but the calls inside the lock are %s (expected %d): %s" % (v, nread, inside, 0 if inside else 1, who)))
+    if nread == 0:
+        bad.append(("reg-driver", "the driver reported no semaphore reading: " + who))
+    seen = set()
+    return [b for b in bad if not (b[0] in seen or seen.add(b[0]))]
 
 
 def low(b):
@@ -92,17 +158,17 @@ def low(b):
 
 def predicates(case, out, nslots):
     """the property itself, evaluated on the implementation's own outputs; returns [(key, description)]"""
-    mode, procs, ids, tab, sched = case
-    n = len(procs)
+    mode, procs, ids, tab = case.mode, case.procs, case.ids, case.tab
     bad = []
     if out.split()[:1] == ["2"]:
-        return [("reg-hang", "the registrations did not all return (deadline): procs=%s ids=%s schedule=%s" % (procs, ids, sched))]
+        return [("reg-hang", "the registrations did not all return (deadline): " + case.describe())]
     p = parse(out)
     if p is None:
         return [("reg-driver", "unexpected driver output %s" % out[:200])]
     ev, rs, look, idx, pwd = p
     init = list(tab) + [b""] * (nslots - len(tab))
-    who = "procs=%s ids=%s schedule=%s events=%s results=%s" % (procs, [i.decode("latin-1") for i in ids], sched, ev, rs)
+    who = "%s events=%s results=%s" % (case.describe(), [e for e in ev if e[1] != 11], rs)
+    bad += sem_predicates(ev, who)
     if any(code == 0 for code, _, _ in rs):
         bad.append(("reg-unfinished", "a call neither failed nor returned: " + who))
     succ = [(t, v) for t, (code, v, _) in enumerate(rs) if code == 1]
@@ -149,6 +215,9 @@ def stress_predicates(pool, tab, shape, out, nslots):
     idx, pwd = dec(p[1]), dec(p[2])
     init = list(tab) + [b""] * (nslots - len(tab))
     bad, stats = [], {}
+    semval = int(p[3][0]) if len(p) > 3 and p[3] else -1
+    if semval != 1:
+        bad.append(("reg-sem-above-1" if semval > 1 else "reg-sem-value", "after all unscheduled calls returned (workers still attached) the passwd semaphore has value %d, expected 1: %s" % (semval, who)))
     for r in recs:
         k = {0: "registered", 1: "exists", 2: "no slot", 104: "semop interrupted"}.get(r[3], "error %d" % r[3])
         stats[k] = stats.get(k, 0) + 1
@@ -177,11 +246,6 @@ def stress_predicates(pool, tab, shape, out, nslots):
         d = [(k + 1, want[k], idx[k], pwd[k]) for k in range(nslots) if not (idx[k] == want[k] == pwd[k])]
         bad.append(("reg-index-passwds-disagree", "SHM index / .PASSWDS do not hold exactly the successful registrations: (uid, expected, index, .PASSWDS) = %s; %s" % (d[:4], who)))
     return bad, stats
-
-
-def case_line(case):
-    mode, procs, ids, tab, sched = case
-    return "1|%d|%s|%s|%s|%s" % (mode, " ".join(map(str, procs)), enc(ids), enc(tab), " ".join(map(str, sched)))
 
 
 def run_cases(impl, lines, par=8):
@@ -217,7 +281,7 @@ def replay_main(path):
         if g[0] == ["2"]:
             found = stress_predicates(dec(g[2]), dec(g[3]), (int(g[1][0]), int(g[1][1])), o, obj.get("nslots", 50))[0]
         else:
-            found = predicates((int(g[1][0]), [int(x) for x in g[2]], dec(g[3]), dec(g[4]), [int(x) for x in g[5]]), o, obj.get("nslots", 50))
+            found = predicates(Case.from_line(cs), o, obj.get("nslots", 50))
         for key, desc in found:
             print("  %s: %s" % (key, desc))
             still = True
@@ -250,12 +314,12 @@ def main():
     # the witness schedule first: in one process, across two processes, through NewRegister
     for procs, mode in (([0, 0], 0), ([0, 1], 0), ([0, 1], 1)):
         for kind in ("same", "case-twins"):
-            cases.append((mode, procs, list(pairs[kind]) + [b"late99"], T_STD, WITNESS)); kinds.append("witness/" + kind)
+            cases.append(single(mode, procs, list(pairs[kind]) + [b"late99"], T_STD, WITNESS)); kinds.append("witness/" + kind)
     nw = len(cases)
     for procs in ([0, 0], [0, 1]):
         for kind, (a, b) in sorted(pairs.items()):
             for s in interleavings([4, 4]):                         # every interleaving of two registrations at the 4 segments
-                cases.append((0, procs, [a, b, b"late99"], T_STD, s)); kinds.append("2x/" + kind)
+                cases.append(single(0, procs, [a, b, b"late99"], T_STD, s)); kinds.append("2x/" + kind)
     n2 = len(cases)
     pool = [b"newuser1", b"NewUser1", b"NEWUSER1", b"other22", b"Other22", b"zed", b"sysop", b"Kahou2"]
     three = [[0, 0, 0], [0, 0, 1], [0, 1, 0], [0, 1, 1], [0, 1, 2]]
@@ -265,52 +329,86 @@ def main():
         s = [0] * 4 + [1] * 4 + [2] * 4
         rng.shuffle(s)
         free = rng.choice([10, 10, 3, 2, 1, 1, 0])
-        cases.append((rng.choice([0, 0, 0, 1]), procs, ids, table(free), s)); kinds.append("3x/free=%d" % free)
+        cases.append(single(rng.choice([0, 0, 0, 1]), procs, ids, table(free), s)); kinds.append("3x/free=%d" % free)
     for _ in range(600 if thorough else 40):                       # two registrations racing for the last slot(s), any ids
         procs = rng.choice([[0, 0], [0, 1]])
         ids = [rng.choice(pool[:6]) for _ in range(2)] + [b"late99"]
         s = [0] * 4 + [1] * 4
         rng.shuffle(s)
         free = rng.choice([1, 1, 2, 0])
-        cases.append((0, procs, ids, table(free), s)); kinds.append("2x/free=%d" % free)
-    lines = [case_line(cs) for cs in cases]
+        cases.append(single(0, procs, ids, table(free), s)); kinds.append("2x/free=%d" % free)
+    nsingle = len(cases)
+    # ---- histories: a phase that ends with a refusal INSIDE the lock (the loser of a same-id / case-twin race is refused by
+    # the lookup under the semaphore; the loser of a race for the last free slot finds none), then registrations interleaved
+    # on the same semaphore, table and worker processes. The lock must be as exclusive after an error path as before it.
+    refusals = {"same": ([b"dupuser1", b"dupuser1"], None), "case-twins": ([b"dupuser1", b"DupUser1"], None),
+                "last-slot": ([b"dupuser1", b"another1"], 1)}
+    for procs1, procs2 in (([0, 0], [0, 0]), ([0, 1], [0, 1]), ([0, 0], [1, 1])):
+        for s in interleavings([4, 4]):                             # every interleaving of two registrations after a same-id refusal inside the lock
+            cases.append(Case(0, T_STD, [(procs1, refusals["same"][0], WITNESS), (procs2, [b"newuser1", b"other22"], s), ([0], [b"late99"], [])]))
+            kinds.append("history/refused-inside,2x")
+    nh2 = len(cases)
+    for _ in range(800 if thorough else 70):
+        kind = rng.choice(sorted(refusals))
+        ids1, free1 = refusals[kind]
+        nproc = rng.choice([1, 2, 3])
+        phases = [([rng.randrange(nproc) for _ in range(2)], ids1, WITNESS)]
+        free = free1 if free1 is not None else rng.choice([10, 10, 3, 2])
+        if rng.random() < 0.3:                                      # a second refusal inside the lock before the interleaving
+            k2 = rng.choice(["same", "case-twins"])
+            phases.append(([rng.randrange(nproc) for _ in range(2)], [b"Again77" if k2 == "same" else b"AGAIN77", b"Again77"], WITNESS))
+        nt = rng.choice([2, 3, 3])
+        ids = [rng.choice(pool + [b"dupuser1", b"fresh01", b"fresh02"]) for _ in range(nt)]
+        s = [t for t in range(nt) for _ in range(4)]
+        rng.shuffle(s)
+        phases.append(([rng.randrange(nproc) for _ in range(nt)], ids, s))
+        phases.append(([0], [rng.choice([b"late99", b"late99", pool[3]])], []))
+        cases.append(Case(rng.choice([0, 0, 0, 1]), table(free), phases)); kinds.append("history/%s,%dx" % (kind, nt))
+    lines = [cs.line() for cs in cases]
     io = run_cases(impl, lines)
     vf.ipc_cleanup()
     c.count(len(lines), "forced interleavings")
     for k in kinds:
         c.cov["distribution"][k] = c.cov["distribution"].get(k, 0) + 1
-    c.cov["exhaustive_parts"] = ["all 70 interleavings of 2 registrations at the 4 segments (check / lock / critical section / unlock) x {same id, ids differing in case, different ids} x {one process, two processes} (%d executions)" % (n2 - nw)]
+    c.cov["exhaustive_parts"] = ["all 70 interleavings of 2 registrations at the 4 segments (check / lock / critical section / unlock) x {same id, ids differing in case, different ids} x {one process, two processes} (%d executions)" % (n2 - nw),
+                                 "all 70 interleavings of 2 registrations of different ids issued after a same-id race whose loser was refused inside the lock, on the same semaphore x {one process, two processes, refusal and interleaving in different processes} (%d executions)" % (nh2 - nsingle)]
 
     mlines, midx = [], []
     outcomes = {}
+    nsem = 0
     for k, (case, line, o) in enumerate(zip(cases, lines, io)):
         bad = predicates(case, o, nslots)
         for key, desc in bad:
             c.violation(key, desc, {"cases": [line], "got": o, "nslots": nslots,
-                                    "expected": {"successes per case-insensitive id": "at most 1", "slots": "distinct, previously free", "index and .PASSWDS": "initial table + exactly the successes"}})
+                                    "expected": {"successes per case-insensitive id": "at most 1", "slots": "distinct, previously free", "index and .PASSWDS": "initial table + exactly the successes",
+                                                 "passwd semaphore": "never above 1; 0 while a call is inside the lock; 1 when none is, in particular after every phase; never two calls inside"}})
         p = parse(o)
         if p is None:
             continue
         ev, rs, look, idx, pwd = p
-        c.nontrivial((kinds[k].split("/")[0], tuple(case[1]), tuple(case[2]), len([i for i in case[3] if i]), tuple(ev)))
+        c.nontrivial((kinds[k].split("/")[0], tuple(case.procs), tuple(case.ids), len([i for i in case.tab if i]), tuple(ev)))
         oc = "".join("S" if code == 1 else {1: "E", 2: "N", 104: "I"}.get(v, "?") for code, v, _ in rs[:-1])
         outcomes[oc] = outcomes.get(oc, 0) + 1
+        nsem += len([1 for e in ev if e[1] == 11])
         # ---- the observed trace must be a trace of the model with the same outcome
-        mlines.append("1|%s|%s|%s" % (enc(case[2]), enc(case[3]), " ".join(map(str, model_schedule(ev)))))
+        mlines.append("1|%s|%s|%s" % (enc(case.ids), enc(case.tab), " ".join(map(str, model_schedule(ev)))))
         midx.append(k)
     c.cov["outcomes(S=registered,E=exists,N=no slot,I=semop interrupted)"] = outcomes
+    c.cov["semaphore_readings_checked"] = nsem
     if model and mlines:
         mo = vf.run_model(model, mlines)
         badm = []
         for k, ml, m in zip(midx, mlines, mo):
             ev, rs, look, idx, pwd = parse(io[k])
-            want = "0 " + " ".join("%d %d" % (code, v) for code, v, _ in rs) + " -1 " + enc(idx) + " -1 " + enc(pwd)
+            obs = [v for _, code, v in ev if code == 11]
+            want = "0 " + " ".join("%d %d" % (code, v) for code, v, _ in rs) + " -1 " + enc(idx) + " -1 " + enc(pwd) \
+                   + " -1 " + " ".join(map(str, obs)) + " -1 %d" % (obs[-1] if obs else -1)
             if " ".join(m.split()) != " ".join(want.split()):
                 badm.append({"case": lines[k], "impl": io[k], "model_case": ml, "model": m})
         c.cov["traces_validated_against_impl"] = len(mlines)
         if badm:
             c.broken.append({"kind": "correspondence", "where": "observed SetupNewUser traces vs Model/C15 replay",
-                             "theorem": "trace validation (replay accepts the observed trace with the same results, index and .PASSWDS ids)",
+                             "theorem": "trace validation (replay accepts the observed trace with the same results, index and .PASSWDS ids, and the same semaphore value at every reading)",
                              "mismatches": len(badm), "examples": badm[:3], "log": ""})
     # ---- unscheduled runs: real concurrency, no schedule points held (the model is not involved)
     spool = [b"user%02d" % k for k in range(12)] + [b"USER%02d" % k for k in range(6)] + [b"sysop"]
@@ -333,13 +431,15 @@ def main():
             c.violation(key, desc, {"cases": [line], "got": o[:3000], "nslots": nslots})
         c.nontrivial(("stress", sh, tuple(pool), tuple(sorted(st.items()))))
     c.cov["stress_call_results"] = sstats
-    c.sample({"kind": kinds[0], "procs": cases[0][1], "ids": [i.decode() for i in cases[0][2]], "schedule": cases[0][4], "observed": io[0][:400]})
-    c.sample({"kind": kinds[nw + 5], "procs": cases[nw + 5][1], "schedule": cases[nw + 5][4], "observed": io[nw + 5][:400]})
-    c.sample({"kind": kinds[n2 + 1], "procs": cases[n2 + 1][1], "ids": [i.decode() for i in cases[n2 + 1][2]], "schedule": cases[n2 + 1][4], "observed": io[n2 + 1][:400]})
+    for k in (0, nw + 5, n2 + 1, nsingle + 5, nh2 + 1):
+        c.sample({"kind": kinds[k], "history": cases[k].describe(), "observed": io[k][:400]})
 
     c.finish(rule="the witness schedule (Check,Check,Lock..Unlock,Lock..Unlock) in one process, across two processes and through NewRegister; every interleaving of 2 registrations "
                   "(4 segments each) x 3 id relations x in-process/cross-process; PRNG(seed)-sampled interleavings of 3 registrations over 1..3 processes on tables with 10/3/2/1/0 free slots and of "
-                  "2 registrations racing for the last slots; a case is non-trivial/distinct by its (shape, process assignment, ids, table fill, observed event trace)",
+                  "2 registrations racing for the last slots; histories on one semaphore/table/set of workers: a refusal inside the lock (same id, case twins, last free slot; sometimes two) followed by "
+                  "every interleaving of 2 registrations (x 3 process layouts) and PRNG(seed)-sampled interleavings of 2-3 registrations over 1..3 processes, then a late registration; "
+                  "the driver reads the semaphore value (semctl GETVAL, workers alive) before the first call, after every controller step and after every phase, and after every unscheduled run; "
+                  "a case is non-trivial/distinct by its (shape, process assignment, ids, table fill, observed event trace)",
              assumptions=["semop(2) on the passwd semaphore is an atomic P/V granting exclusivity; one DoSearchUserRaw / SetUserID / .PASSWDS record write is one atomic step of the model (the controller serialises the threads at the schedule points)",
                           "tryCleanUser is a no-op during the runs (.fresh is recent): account expiry is C03's subject",
                           "free slots are chained in ascending order after a load (the model takes the lowest free slot; checked by the trace validation)"])
